@@ -238,13 +238,21 @@ def ambient_env_names():
     in its sources).  The specification has no such input: whatever the library reads from its process environment
     is a configuration dimension the checks then explore (currently there is none)."""
     import re, glob
-    names = set()
+    names, idents, consts = set(), set(), {}
     for f in glob.glob(os.path.join(REPO, "src", "**", "*.rs"), recursive=True):
         try:
             txt = open(f, errors="replace").read()
         except OSError:
             continue
         names.update(re.findall(r'env::var(?:_os)?\(\s*"([A-Za-z0-9_]+)"', txt))
+        # the name given through a constant: env::var(NAME) ... const NAME: &str = "..."
+        idents.update(re.findall(r'env::var(?:_os)?\(\s*&?([A-Za-z_][A-Za-z0-9_:]*)\s*\)', txt))
+        for k, v in re.findall(r'(?:const|static)\s+([A-Z_][A-Z0-9_]*)\s*:\s*&(?:\'static\s+)?str\s*=\s*"([^"]+)"', txt):
+            consts[k] = v
+    for i in idents:
+        i = i.split("::")[-1]
+        if i in consts:
+            names.add(consts[i])
     return sorted(names)
 
 
